@@ -237,8 +237,33 @@ def blk_tiny(rng: random.Random, ox: float, oy: float, n: int) -> List[Any]:
     return [glyph(ox + i * (s + gap), oy, s, s, letter(rng)) for i in range(k)]
 
 
+def blk_corner(rng: random.Random, ox: float, oy: float, n: int) -> List[Any]:
+    """Glyphs that turn a corner in stream order: a horizontal run followed by glyphs stacked under (or over) its
+    last glyph, or a vertical stack followed by a run beside its last glyph; also L, U and staircase paths."""
+    s = rng.choice(SIZES)
+    w = s * rng.choice([0.5, 1, 1])
+    gap = s * rng.choice([0, 0, 0.125, 0.25, 0.5])
+    vert = 1 if rng.random() < 0.3 else 0
+    out: List[Any] = []
+    x, y = ox, oy
+    legs = rng.choice([2, 2, 2, 3, 4])
+    horizontal = rng.random() < 0.6          # direction of the first leg
+    for leg in range(legs):
+        k = rng.randint(2, 5) if leg == 0 else rng.randint(1, 4)
+        sign = rng.choice([1, 1, -1]) if horizontal else rng.choice([-1, -1, 1])
+        for i in range(k):
+            if leg > 0 or i > 0:
+                if horizontal:
+                    x += sign * (w + gap)
+                else:
+                    y += sign * (s + gap)
+            out.append(glyph(x, y, w, s, letter(rng), vert))
+        horizontal = not horizontal
+    return out[:n]
+
+
 POS_BLOCKS = [(blk_para, 6), (blk_grid, 3), (blk_vcol, 3), (blk_pile, 2), (blk_stairs, 1), (blk_degenerate, 2),
-              (blk_blank, 2), (blk_tiny, 1)]
+              (blk_blank, 2), (blk_tiny, 1), (blk_corner, 3)]
 
 
 def gen_glyphs(rng: random.Random, bbox: List[float], n: int, fams: Optional[Dict[str, int]] = None) -> List[Any]:
